@@ -125,6 +125,8 @@ def main():
     chk.evaluations += stats['po_spelling_pairs'] + stats['transcoding_pairs'] + stats['transcoding_pairs_mo'] + stats['mo_layout_pairs'] + stats['po_mo_pairs'] \
         + stats['po_mo_unsorted_pairs'] + stats['packages'] + stats['cli_runs'] + stats['sequence_runs'] + stats['cli_pairs'] + stats['cli_vs_inproc']
     chk.coverage['metamorphic'] = {k: v for k, v in sorted(stats.items())}
+    chk.coverage['tags_emitted_by_the_real_checker'] = dict(sorted(M.SEEN_TAGS.items()))
+    chk.note_cases([(t,) for t in M.SEEN_TAGS])
     chk.coverage['modulo'] = {'charset_tags': sorted(M.CHARSET_TAGS), 'mo_exemption': 'no-date-header-field POT-Creation-Date (PO side only)',
                               'order_sensitive_on_reordered_catalogs_only': sorted(M.ORDER_SENSITIVE)}
     for f in found[:6]:
